@@ -687,7 +687,7 @@ Lemma mark_complete_bucket_failed : forall cfg fs e,
   fst (request cfg PListing O s3_create_bucket_ignored fs) = Err e ->
   mark_complete cfg fs = (Err e, snd (request cfg PListing O s3_create_bucket_ignored fs), O).
 Proof.
-  intros cfg fs e H. unfold mark_complete.
+  intros cfg fs e H. unfold mark_complete, mark_complete_with.
   destruct (request cfg PListing O s3_create_bucket_ignored fs) as [rb nb]. cbn in H. subst. reflexivity.
 Qed.
 
@@ -699,7 +699,7 @@ Lemma mark_complete_bucket_ok : forall cfg fs d,
   (spec_result (c_forcelist cfg) O (c_retry cfg) (skipn nb fs), nb,
    spec_requests (c_forcelist cfg) O (c_retry cfg) (skipn nb fs)).
 Proof.
-  intros cfg fs d Hb Hwf H. unfold mark_complete.
+  intros cfg fs d Hb Hwf H. unfold mark_complete, mark_complete_with.
   destruct (request cfg PListing O s3_create_bucket_ignored fs) as [rb nb]. cbn in H. subst. cbn [snd].
   fold (put_chunk cfg O (skipn nb fs)).
   assert (Hwf' : Forall (fun o => wf_outcome o = true) (skipn nb fs)).
@@ -714,3 +714,46 @@ Proof.
   intros cfg rest Hm. unfold request. cbn [request_loop adapter_step]. rewrite Hm.
   unfold katdal_step. change (streamed PListing) with false. cbv iota. reflexivity.
 Qed.
+
+(* ---------- the `retries` argument ---------- *)
+Lemma store_config_int : forall n, 0 <= n ->
+  let cfg := store_config (RInt n) in
+  r_read (c_retry cfg) = Some n /\ r_connect (c_retry cfg) = Some n /\ r_status (c_retry cfg) = Some 5 /\
+  r_total (c_retry cfg) = Some 10 /\ c_forcelist cfg = [500; 502; 503; 504] /\ wf_retry (c_retry cfg) = true.
+Proof.
+  intros n Hn. cbn [store_config]. destruct (default_config_ok n n Hn Hn) as [H1 [H2 [_ [H4 H5]]]].
+  repeat split; try assumption; reflexivity.
+Qed.
+
+Lemma default_store_is : default_store = default_config 2 2.
+Proof. reflexivity. Qed.
+
+(* what a user of S3ChunkStore(url) can rely on: a chunk survives any run of transient faults with at most 2 read
+   faults, at most 5 status faults (and at most 10 faults in all) *)
+Lemma default_store_budget : forall segs pre,
+  forallb (transient [500; 502; 503; 504] (total segs)) pre = true ->
+  count (read_fault (total segs)) pre <= 2 -> count (status_fault [500; 502; 503; 504]) pre <= 5 ->
+  request default_store (PChunk segs) (total segs) [] pre = (Ok (total segs), S (List.length pre)).
+Proof.
+  intros segs pre Ht Hr Hst. rewrite default_store_is.
+  destruct (default_config_ok 2 2 ltac:(lia) ltac:(lia)) as [H1 [H2 [H3 _]]].
+  rewrite (faults_then_good (default_config 2 2) (PChunk segs) (total segs) pre H1 H3 eq_refl eq_refl);
+    [|rewrite H2; exact Ht].
+  rewrite H2.
+  assert (F : fits [500; 502; 503; 504] (total segs) (c_retry (default_config 2 2)) pre = true).
+  { unfold fits, within. unfold default_config. change s3_default_status with 5. cbn [c_retry r_read r_status r_total].
+    assert (Z.of_nat (List.length pre) <= 7).
+    { assert (E : forall l, forallb (transient [500; 502; 503; 504] (total segs)) l = true ->
+                  Z.of_nat (List.length l) <= count (read_fault (total segs)) l + count (status_fault [500; 502; 503; 504]) l).
+      { unfold count. induction l as [|o l IH]; intro Hl; [cbn; lia|].
+        cbn [forallb] in Hl. apply andb_true_iff in Hl as [Ho Hl]. specialize (IH Hl).
+        unfold transient in Ho. cbn [filter List.length].
+        destruct (read_fault (total segs) o); destruct (status_fault [500; 502; 503; 504] o);
+          try discriminate Ho; cbn [List.length]; lia. }
+      specialize (E pre Ht). lia. }
+    apply andb_true_iff; split; [apply andb_true_iff; split|]; apply Z.leb_le; lia. }
+  rewrite F. reflexivity.
+Qed.
+
+Lemma mark_complete_is_spec : forall cfg fs, mark_complete cfg fs = spec_mark_complete cfg fs.
+Proof. reflexivity. Qed.
